@@ -112,7 +112,8 @@ def _generate_slice(ns, node):
         else:
             sr = f"[{node.start}]"
     r, s = _generate_expression(ns, node.value)
-    return r + sr, s
+    # A bit/part-select is unsigned in Verilog, whatever the signedness of the sliced value.
+    return r + sr, (s if sr == "" else False)
 
 # Print Cat ----------------------------------------------------------------------------------------
 
